@@ -149,6 +149,19 @@ CLAIMED['C17'] = (
     'raysect winding2d / triangulate2d / find_index / point_triangle / uniform are models or stubs; CSG construction and '
     'uniformity inside a triangle are outside the claim.',
     'DESIGN.md §4 C17', TECH)
+CLAIMED['C10'] = (
+    'Both RayTransfer integrators (translated) are executed with the voxel map an uninterpreted function from cells to source '
+    'ids in [-1,2), the ray length, start point and integration step symbolic and every sample position havocked (arbitrary '
+    'positions inside the grid: a superset of all rays): for up to 2 (quick) / 4 (thorough) samples z3 proves n = '
+    'max(min_samples, floor(length/step)), samples at (it+1/2) length/n, and that each source receives exactly dt times the '
+    'number of samples whose cell maps to it (cells mapped to -1 add nothing; merged maps are the sum over their cells by '
+    'this formula), total between 0 and the chord length, short rays add nothing. emission_function / index arithmetic: '
+    'for symbolic cell sizes and inner radius the cell index satisfies i d <= coordinate < (i+1) d, emission adds 1 to the '
+    'mapped source, and the cylindrical grid repeats with the angular period. Mask / voxel-map bookkeeping: exhaustive '
+    'enumeration on a 2x1x2 grid (numpy boolean indexing cannot be symbolic; labelled as enumeration).',
+    'raysect geometry (start/end points), the two-step chord-length error bound and floating-point rounding of the index '
+    'computation are outside the claim; atan2 and sqrt are havocked / harness-supplied in the accumulation harness.',
+    'DESIGN.md §4 C10', TECH)
 NOT_YET = {}
 props = [json.loads(l) for l in open(os.path.join(HERE, 'properties.jsonl'))]
 checks, na = [], []
